@@ -131,6 +131,9 @@ func outputTupleDir(v rel.Value, dir string, fs afero.Fs, dryRun bool) error {
 			if err := outputFile(content, subpath, fs, dryRun); err != nil {
 				return err
 			}
+		default:
+			// numbers, functions, ...: nothing that can be written
+			return fmt.Errorf("dir output entry must be dict, string or byte array")
 		}
 	}
 	return nil
